@@ -282,7 +282,10 @@ class Driver:
         lst = self.pending.pop(fr.idx + 1, None)    # 'after': n = once n frames are on the bus
         if lst:
             w = self.net.w
-            w.at(w.now + 1e-5, lambda: [self._submit(i) for i in lst])
+            for i in lst:
+                # 'after_dt': how long after that send call started (default 10 us; with a blocking driver a larger
+                # value lands in the middle of the send call)
+                w.at(w.now + self.sc['msgs'][i].get('after_dt', 1e-5), lambda i=i: self._submit(i))
 
     def _hook(self, tag, priority, pgn, sa, data):
         """'on': {'tag': listener, 'kind': 'ack' | 'data', 'nth': k}: the application submits the message from inside
